@@ -89,7 +89,7 @@ def create_header(ns_prefix: Optional[NamespaceIds] = None) -> GeneratedContent:
 
     cfg = SupportFileCfg(header=header_hh_template(cpp_ns),
                          body=body_hh(),
-                         includes=TextBlock(SystemIncludes(['functional', 'string'])),
+                         includes=TextBlock(SystemIncludes(['functional', 'stdexcept', 'string'])),
                          ns_prefix=ns_prefix)
 
     return GeneratedContent(filename=f'{file_ns}_ILog.hh',
